@@ -264,3 +264,77 @@ def refusal(amask: int, kmask: int, hsrc: int, hj: int, as_arg: bool, via: int, 
         finally:
             prog.close()
             sb.close()
+
+
+# ------------------------------------------------------------------------------------------------
+# memento functions that are static methods of classes: same method name in two classes
+# ------------------------------------------------------------------------------------------------
+
+STATIC_SRC = (
+    "import sys\n"
+    "class Raw:\n"
+    "    @staticmethod\n"
+    "    @m.memento_function\n"
+    "    def load(x, fns=None):\n"
+    "        _trace.append('Raw.load')\n"
+    "        return x + 1\n"
+    "    @staticmethod\n"
+    "    @m.memento_function\n"
+    "    def fetch(x, fns=None):\n"
+    "        _trace.append('Raw.fetch')\n"
+    "        return x + 100\n"
+    "class Clean:\n"
+    "    @staticmethod\n"
+    "    @m.memento_function\n"
+    "    def load(x, fns=None):\n"
+    "        _trace.append('Clean.load')\n"
+    "        owner = vars(sys.modules[__name__])['R' + 'aw']\n"
+    "        return getattr(owner, TARGET[0])(x) * 2%s\n"
+    "TARGET = ['load']\n"
+)
+
+
+@obligation(
+    "C14.refusal_static_methods",
+    covers=("same-method-name-in-another-class", "other-method-name", "statically-named", "passed-as-argument"),
+    bounds="memento functions that are static methods: Clean.load (automatic version) dynamically calls Raw.load (the SAME method name in "
+           "another class) or Raw.fetch, which its body names statically or not, passed as an argument or not, invoked directly or "
+           "through a partial() clone: refused exactly when the callee is neither in the closure nor an argument",
+    variables="choice: callee, statically named bit, argument bit, clone bit",
+    budget_s={"quick": 120, "thorough": 300},
+    choice_vars=4,
+)
+def refusal_static_methods(same_name: bool, named: bool, as_arg: bool, via_clone: bool):
+    sn = True if same_name else False
+    nm = True if named else False
+    ar = True if as_arg else False
+    vc = True if via_clone else False
+    with concrete_region():
+        callee = "load" if sn else "fetch"
+        cover("same-method-name-in-another-class" if sn else "other-method-name")
+        static_ref = (" + (0 if True else Raw.%s(x))" % callee) if nm else ""
+        sb = Sandbox(kinds="memory")
+        prog = Program(MOD)
+        try:
+            prog.exec(STATIC_SRC % static_ref)
+            prog.TARGET[0] = callee
+            root = prog.Clean.load
+            target = getattr(prog.Raw, callee)
+            call = root.partial(1) if vc else (lambda **k: root(1, **k))
+            try:
+                call(fns=[target]) if ar else call()
+                outcome = "result"
+            except UndeclaredDependencyError:
+                outcome = "refused"
+            if nm:
+                cover("statically-named")
+                expect = "result"
+            elif ar:
+                cover("passed-as-argument")
+                expect = "result"
+            else:
+                expect = "refused"
+            check("call-outside-the-closure-is-refused-and-only-that", outcome == expect, (outcome, expect, callee, nm, ar, vc))
+        finally:
+            prog.close()
+            sb.close()
